@@ -15,13 +15,11 @@ symbolic reasoning about the spaces in which finite elements lie.
 # Modified by Lizao Li 2015
 # Modified by Thomas Gibson 2017
 
-from functools import total_ordering
 from math import inf, isinf
 
 __all_classes__ = ["SobolevSpace", "DirectionalSobolevSpace"]
 
 
-@total_ordering
 class SobolevSpace:
     """Symbolic representation of a Sobolev space.
 
@@ -91,8 +89,21 @@ class SobolevSpace:
         """In common with intrinsic Python sets, < indicates "is a proper subset of"."""
         return other in self.parents
 
+    # Inclusion of Sobolev spaces is a partial order: the remaining comparisons
+    # are defined from < and ==, not derived as for a total order.
+    def __gt__(self, other):
+        """Check whether other is a proper subset of self."""
+        return self in other.parents
 
-@total_ordering
+    def __le__(self, other):
+        """Check whether self is a subset of other."""
+        return self == other or self < other
+
+    def __ge__(self, other):
+        """Check whether other is a subset of self."""
+        return self == other or self > other
+
+
 class DirectionalSobolevSpace(SobolevSpace):
     """Directional Sobolev space.
 
@@ -135,9 +146,7 @@ class DirectionalSobolevSpace(SobolevSpace):
                 "Unable to test for inclusion of a SobolevSpace in another SobolevSpace. "
                 "Did you mean to use <= instead?"
             )
-        return other.sobolev_space == self or all(
-            self[i] in other.sobolev_space.parents for i in self._spatial_indices
-        )
+        return other.sobolev_space <= self
 
     def __eq__(self, other):
         """Check equality."""
@@ -161,9 +170,17 @@ class DirectionalSobolevSpace(SobolevSpace):
             # Don't know how these spaces compare
             raise NotImplementedError(f"Don't know how to compare with {other.name}")
         else:
-            return all(self._orders[i] >= other._order for i in self._spatial_indices) and any(
-                self._orders[i] > other._order for i in self._spatial_indices
-            )
+            # self is contained in the space of its least smooth direction and in nothing smaller
+            lowest = self[min(self._spatial_indices, key=lambda i: self._orders[i])]
+            return lowest <= other and not self == other
+
+    def __gt__(self, other):
+        """Check whether other is a proper subset of self."""
+        if isinstance(other, DirectionalSobolevSpace):
+            return other < self
+        # A space without directional structure is contained in self if and only if it is
+        # contained in the space of every direction
+        return all(other <= self[i] for i in self._spatial_indices) and not self == other
 
     def __str__(self):
         """Format as a string."""
